@@ -107,6 +107,7 @@ class ZorgFileCompiler(ZorgFileListener):
         if (
             self._s.in_note
             and self._s.ids_in_note == 1
+            and self._s.atoms_in_note == 1
             and self._s.note_date is None
         ):
             self._s.note_date = get_datetime().date()
@@ -169,14 +170,23 @@ class ZorgFileCompiler(ZorgFileListener):
     def enterId(self, ctx: ZorgFileParser.IdContext) -> None:  # noqa: D102
         if self._s.in_note:
             self._s.ids_in_note += 1
-            if self._s.ids_in_note == 1 and zdt.is_short_date_spec(
-                short_date := ctx.getText()
+            # A modify date / ZID only counts as such when it is one of the
+            # note's leading words (i.e. every word so far was an ID).
+            is_leading_id = self._s.ids_in_note == self._s.atoms_in_note
+            if (
+                is_leading_id
+                and self._s.ids_in_note == 1
+                and zdt.is_short_date_spec(short_date := ctx.getText())
             ):
                 self._s.modify_date = zdt.from_short_date_spec(short_date)
             elif (
-                self._s.ids_in_note == 1
-                or (self._s.ids_in_note == 2 and self._s.modify_date)
-            ) and zdt.is_zid(zid := ctx.getText()):
+                is_leading_id
+                and (
+                    self._s.ids_in_note == 1
+                    or (self._s.ids_in_note == 2 and self._s.modify_date)
+                )
+                and zdt.is_zid(zid := ctx.getText())
+            ):
                 self._s.zid = zid
                 zorg_id_date = f"20{zid.split('#')[0]}"
                 self._s.note_date = dt.datetime.strptime(
@@ -241,6 +251,13 @@ class ZorgFileCompiler(ZorgFileListener):
     ) -> None:  # noqa: D102
         key, value = ctx.id_().getText(), ctx.simple_prop_value().getText()
         self._add_prop(key, value)
+
+    def enterSpace_atom(
+        self, ctx: ZorgFileParser.Space_atomContext
+    ) -> None:  # noqa: D102
+        del ctx
+        if self._s.in_note:
+            self._s.atoms_in_note += 1
 
     def enterTodo(self, ctx: ZorgFileParser.TodoContext) -> None:  # noqa: D102
         self._s.in_note = True
@@ -402,6 +419,7 @@ class ZorgFileCompiler(ZorgFileListener):
     def _reset_note_context(self) -> None:
         self._s.zid = None
         self._s.ids_in_note = 0
+        self._s.atoms_in_note = 0
         self._s.note_tags = _get_default_tags_map()
         self._s.note_props = {}
         self._s.note_date = None
@@ -549,6 +567,7 @@ class _ZorgFileCompilerState:
     zid: Optional[str] = None
 
     ids_in_note: int = 0
+    atoms_in_note: int = 0
 
     block: Optional[Block] = None
     h1: Optional[H1] = None
